@@ -75,6 +75,12 @@ type LowSourceLimitGetter interface {
 	LowestBlockNum() uint64
 }
 
+// SourceFromBlockRefFactory is implemented by live source factories that can tell whether the block a
+// caller already holds is the canonical block of its height: they answer only then, from that block on.
+type SourceFromBlockRefFactory interface {
+	SourceFromBlockRef(BlockRef, Handler) Source
+}
+
 type SourceFactory func(h Handler) Source
 type SourceFromRefFactory func(startBlockRef BlockRef, h Handler) Source
 type SourceFromNumFactory func(startBlockNum uint64, h Handler) Source
